@@ -5,6 +5,7 @@ import Percival.Proofs.MPool
 import Percival.Proofs.DsStep
 import Percival.Proofs.DsRun
 import Percival.Proofs.DsAns
+import Percival.Proofs.MPools
 /-!
 # C12 — elastic array/queue, sequential pointer map and object pool refine their abstract models
 
@@ -249,6 +250,47 @@ example : MPool.Contracts 40 (MPool.init 1) [] [.malloc, .free 0] Mem.grantAll :
   subst e1
   exact List.mem_cons_self
 
+/-! ### Several pools in one process
+
+A source file may instantiate `MPOOL` more than once (the harness has four: cache sizes 1..4, all alive at once after
+`mp_use`); the pools share only the allocator.  `MPools.run` is the interleaved run — `(k, op)` is `op` on pool `k` —,
+`MPools.proj k` the operations of pool `k` with the answers they got, `MPools.RunI` the single-pool run (every step is
+`MPool.step`) in an environment that may use the allocator between the steps (`Ext`: same oracle, counters not
+decreased; with an idle environment `RunI` is `MPool.run`: `MPools.runI_of_run`). -/
+
+/-- **Projection**: in every interleaved run, each pool makes exactly the single-pool run of its own operations (the
+other pools are visible to it only as requests made to the shared allocator); a pool that is not named is not
+touched. -/
+theorem mp_pools_projection (sz k : Nat) (ops : List (Nat × MpOp)) (ps : MPools.Pools) (m : Mem) :
+    MPools.RunI sz (ps k) m (MPools.proj k (MPools.run sz ps ops m).1) ((MPools.run sz ps ops m).2.1 k)
+      (MPools.run sz ps ops m).2.2 ∧
+    ((∀ x ∈ ops, x.1 ≠ k) → (MPools.run sz ps ops m).2.1 k = ps k) :=
+  ⟨MPools.run_proj sz k ops ps m, MPools.run_frame sz k ops ps m⟩
+
+/-- **Hence, for every interleaving of any number of pools of any cache sizes, under every oracle**: each pool's
+answers are admitted by its own set of objects in use (`malloc` never hands out an object that is still in use, NULL
+only with a refused request), and **at exit nothing cached remains in any pool**: the handler of pool `k` leaves its
+cache empty and, of what the pool accounted for, exactly its objects in use allocated. -/
+theorem mp_pools_refine_and_exit (sz : Nat) (sizes : Nat → Nat) (k : Nat) (ops : List (Nat × MpOp)) (m : Mem)
+    (hc : MPools.Held [] (MPools.proj k (MPools.run sz (fun j => MPool.init (sizes j)) ops m).1)) :
+    ∃ u' base', mpAdmitAll [] (MPools.proj k (MPools.run sz (fun j => MPool.init (sizes j)) ops m).1) = some u' ∧
+      MPool.R ((MPools.run sz (fun j => MPool.init (sizes j)) ops m).2.1 k)
+        (MPools.run sz (fun j => MPool.init (sizes j)) ops m).2.2 u' base' ∧
+      (MPool.atexit ((MPools.run sz (fun j => MPool.init (sizes j)) ops m).2.1 k)
+        (MPools.run sz (fun j => MPool.init (sizes j)) ops m).2.2).1.stack = [] ∧
+      (MPool.atexit ((MPools.run sz (fun j => MPool.init (sizes j)) ops m).2.1 k)
+        (MPools.run sz (fun j => MPool.init (sizes j)) ops m).2.2).2.live = base' + u'.length := by
+  obtain ⟨u', b', ha, hR⟩ := MPools.run_refines sz sizes k ops m hc
+  have he := MPool.atexit_spec _ _ u' b' hR
+  exact ⟨u', b', ha, hR, he.1, he.2.2⟩
+
+/-- two pools (sizes 1 and 2) interleaved: each crosses its cache size and doubles its stack; object numbers are the
+process-wide request numbers -/
+example : (MPools.run 40 (fun j => MPool.init j)
+    [(2, .malloc), (1, .malloc), (2, .malloc), (1, .malloc), (2, .malloc), (1, .free 1), (2, .free 0), (1, .free 3),
+     (2, .free 2), (2, .free 4), (1, .malloc), (2, .malloc)] Mem.grantAll).1.map (·.2.2.obj) =
+    [some 0, some 1, some 2, some 3, some 4, none, none, none, none, none, some 3, some 4] := by decide
+
 /-! ## The executable: `Model.DsStep.stepOp` (what `pmodel ds` runs) is the step functions above
 
 `Driver/Ds.lean` only parses a line into a `Spec.DSMon.Op` and prints the typed `Out` of `Model.DsStep.stepOp`.
@@ -349,6 +391,47 @@ theorem exec_mp_step (s : DsStep.S) (op : Op) (e : MpOp) (he : mpOpOf s.inUse op
           (mpL2 (MPool.step objSize s.mp e s.m).2.1 s.m (MPool.step objSize s.mp e s.m).2.2)) :=
   mp_stepOp s op e he
 
+/-- **`mp_malloc` / `mp_free` / `mp_freenth` go to the pool in use only**: every other pool of the process (`S.pool`)
+is what it was. -/
+theorem exec_mp_frame (s : DsStep.S) (op : Op) (e : MpOp) (he : mpOpOf s.inUse op = some e) (k : Nat) (hk : k ≠ s.mpSize) :
+    (stepOp s op).1.pool k = s.pool k ∧ (stepOp s op).1.mpSize = s.mpSize := by
+  rw [mp_stepOp s op e he]
+  simp only [DsStep.S.pool, hk, if_false, and_self]
+
+/-- **`mp_use size` only changes which pool is in use**: no pool changes state (none ends, nothing is registered,
+allocated or released), the allocator is untouched; the pool in use afterwards is the one of that size. -/
+theorem exec_mp_use (s : DsStep.S) (size : Nat) (hok : poolSizes.contains size = true) :
+    (∀ k, (stepOp s (.mpUse size)).1.pool k = s.pool k) ∧ (stepOp s (.mpUse size)).1.mpSize = size ∧
+    ((stepOp s (.mpUse size)).1.mp, (stepOp s (.mpUse size)).1.inUse) = s.pool size ∧
+    (stepOp s (.mpUse size)).1.m = s.m ∧ (stepOp s (.mpUse size)).1.ea = s.ea ∧
+    (stepOp s (.mpUse size)).1.eq = s.eq ∧ (stepOp s (.mpUse size)).1.sm = s.sm := by
+  simp only [stepOp, hok, Bool.not_true, Bool.false_eq_true, if_false, DsStep.S.pool, and_true]
+  intro k
+  by_cases h1 : k = size
+  · subst h1; simp only [if_true]
+  · simp only [h1, if_false]
+
+/-- **process exit with several pools alive** (`mp_exit`, from every state a run reaches: `Rel`): the handler of every
+pool has run — every pool is in its load-time state again — and exactly the blocks of the containers stay allocated:
+no cached object of any pool, no stack array, (and the harness released the objects in use). -/
+theorem exec_pools_exit {n : Nat} {s : DsStep.S} {ms : Spec.DSMon.S} (h : Rel n s ms) :
+    (∀ k, (stepOp s .mpExit).1.pool k = (MPool.init k, [])) ∧
+    (stepOp s .mpExit).1.m.live = eaBlk s.ea + eqBlk s.eq + smBlk s.sm := by
+  obtain ⟨_, hlive, _, _, _, _⟩ := poolExit_spec h.mp
+  refine ⟨fun k => ?_, hlive⟩
+  by_cases hk : k = s.mpSize
+  · simp only [stepOp, poolExit, DsStep.S.pool, hk, if_true]
+  · simp only [stepOp, poolExit, DsStep.S.pool, hk, if_false]
+
+/-- the pool of size 2 is parked with one object cached and one in use while the pool of size 1 works; at `mp_exit`
+both handlers run -/
+example : ((runOps {} [.mpUse 2, .mpMalloc, .mpMalloc, .mpFree 0, .mpUse 1, .mpMalloc]).1.pool 2).1.stack = [0] ∧
+    ((runOps {} [.mpUse 2, .mpMalloc, .mpMalloc, .mpFree 0, .mpUse 1, .mpMalloc]).1.pool 2).2 = [1] ∧
+    ((runOps {} [.mpUse 2, .mpMalloc, .mpMalloc, .mpFree 0, .mpUse 1, .mpMalloc]).1.pool 1).2 = [2] ∧
+    (runOps {} [.mpUse 2, .mpMalloc, .mpMalloc, .mpFree 0, .mpUse 1, .mpMalloc]).1.m.live = 3 ∧
+    (runOps {} [.mpUse 2, .mpMalloc, .mpMalloc, .mpFree 0, .mpUse 1, .mpMalloc, .mpExit]).1.m.live = 0 := by
+  decide +kernel
+
 example : mpOpOf [7, 3] (.mpFree 3) = some (.free 3) := rfl
 example : mpOpOf [] .mpMalloc = some .malloc := rfl
 
@@ -405,6 +488,7 @@ theorem monitor_accepts_model (n : Nat) (s : DsStep.S) (ms : Spec.DSMon.S) (h : 
 example : Rel 0 {} {} := rel_init
 example : OpOk (.eaInit 3 4 9) := by decide
 example : OpOk (.mpInit 2) ∧ ¬ OpOk (.mpInit 5) := by decide
+example : OpOk (.mpUse 1) ∧ ¬ OpOk (.mpUse 0) := by decide
 /-- `mp_init 2` after two objects were taken: the answer is `ok`, the monitor accepts it and forgets the objects -/
 example : (stepOp (runOps {} [.mpMalloc, .mpMalloc]).1 (.mpInit 2)).2.ans.head = .ok ∧
     (stepOp (runOps {} [.mpMalloc, .mpMalloc]).1 (.mpInit 2)).1.mpSize = 2 ∧
